@@ -191,6 +191,9 @@ func model(c *Case) verdict {
 		if (c.C.EMS == 1 && c.S.EMS == 2) || (c.C.EMS == 2 && c.S.EMS == 1) {
 			return verdict{mustFail: "ems-required-vs-disabled"}
 		}
+	}
+	// ALPN and SRTP: the property names no version ("when no common value exists the handshake fails on both sides")
+	if len(common) == 1 {
 		if len(c.C.ALPN) > 0 && len(c.S.ALPN) > 0 {
 			inter := false
 			for _, a := range c.C.ALPN {
@@ -385,7 +388,7 @@ func run(c Case, r *pbt.R) {
 			return
 		}
 		if ver == 12 && !usable12(suite, sp) {
-			r.Failf("C11|suite-does-not-fit-server-key", "negotiated %04x with server credential cert=%q psk=%v", suite, c.S.Cert, sp.hasPSK)
+			r.Failf("C11|suite-does-not-fit-server-key", "negotiated %04x with server credential cert=%q (certificates in front of it: %v, requested name %q) psk=%v", suite, c.S.Cert, c.S.CertsBefore, c.C.ServerName, sp.hasPSK)
 
 			return
 		}
@@ -712,6 +715,15 @@ func gen(t *rapid.T) Case {
 		family = "psk" // for the repair step: the server must keep a PSK suite
 	} else {
 		c = Case{C: genSide(t, "c", false, family), S: genSide(t, "s", true, family)}
+		if family == "cert" && rapid.IntRange(0, 3).Draw(t, "multicert") == 0 {
+			// several server certificates of different key types: a decoy for another name first, the client
+			// names the server it wants; the suite has to fit the key of the certificate that is served
+			c.S.CertsBefore = []string{"wrongname"}
+			if certKindOf(c.S.Cert) == "ecdsa" {
+				c.S.CertsBefore = []string{"wrongname-rsa"}
+			}
+			c.C.ServerName = scen.ServerName
+		}
 	}
 	if rapid.IntRange(0, 9).Draw(t, "repair") != 0 {
 		repair(&c.C, family)
